@@ -218,14 +218,22 @@ def dec(v):
     import pendulum
 
     k = v["k"]
+
+    def _tz(v):
+        if v.get("nm") is not None:        # a FixedTimezone given an explicit name (an abbreviation such as "-03" or "CET")
+            return pendulum.FixedTimezone(v["z"]["fo"], name=uncps(v["nm"]))
+        return tzobj(v["z"], v.get("zk", "pendulum"))
+
     if k == "dt":
         cls = {"DateTime": pendulum.DateTime, "datetime": _dt.datetime}[v.get("cls", "DateTime")]
-        return cls(*v["w"], tzinfo=tzobj(v["z"], v.get("zk", "pendulum")), fold=v["f"])
+        return cls(*v["w"], tzinfo=_tz(v), fold=v["f"])
     if k == "date":
         cls = {"Date": pendulum.Date, "date": _dt.date}[v.get("cls", "Date")]
         return cls(*v["w"])
     if k == "time":
         cls = {"Time": pendulum.Time, "time": _dt.time}[v.get("cls", "Time")]
+        if v.get("z") and v["z"]["n"] != "naive":
+            return cls(*v["w"], tzinfo=_tz(dict(v, zk=v.get("zk", "fixed" if v["z"]["n"] == "" else "pendulum"))))
         return cls(*v["w"])
     if k == "td":
         return _dt.timedelta(*(v.get("r") or v["r3"]))
@@ -237,7 +245,7 @@ def dec(v):
     if k == "iv":
         return pendulum.Interval(dec(v["a"]), dec(v["b"]), absolute=bool(v.get("abs")))
     if k == "tz":
-        return tzobj(v["z"], v.get("zk", "pendulum"))
+        return _tz(v)
     raise ValueError("cannot decode %r" % (v,))
 
 
